@@ -128,10 +128,11 @@ PROPS = {
         "level_note": "Trusted: Lean kernel; harness. Modelled, not verified: text/bytes/date conversions and composite liftings (oracle only).",
     },
     "C01": {
-        "lean_modules": ["QrlewModel.Props.C01"],
+        "lean_modules": ["QrlewModel.Props.C01", "QrlewModel.Props.C01Agg"],
         "streams": [
             {"name": "clip", "n_quick": 3000, "n_thorough": 150000, "min_per_proc": 100},
             {"name": "c01", "n_quick": 1500, "n_thorough": 60000, "compare": False, "min_per_proc": 50},
+            {"name": "dpagg", "n_quick": 1500, "n_thorough": 60000, "compare": True, "min_per_proc": 100},
         ],
         "rule": "clip: generated tracked tables (1-6 units, 1-4 groups, 0-30 rows, NULL values, C in {0, 1, 2.5, 10, 1000}) -> the real l2_clipped_sums relation rendered and executed on SQLite vs the Lean clipping model on Float; every unit removed in turn. "
                 "c01: generated aggregation queries (users / orders via foreign key / join; ungrouped or public-valued keys; WHERE) x DpParameters (max multiplicity 1, 2, 100; share 1, 0.01) x databases where units exceed the multiplicity assumption (up to 40 rows per unit): "
@@ -139,7 +140,7 @@ PROPS = {
         "trusted_base": COMMON_TRUST + ["SQLite 3.40 as executor of the rendered relation (+ harness shims: MD5, FIRST/LAST, GREATEST/LEAST, MEAN/VAR/STD, RANDOM override, VALUES column lists)", "Mathlib Real.sqrt", "IR extraction of σ and C (harness/src/ir.rs)"],
         "assumptions": ["keys are public-valued or absent in the execution oracle (with thresholded keys the set of released groups itself depends on the unit; that is C04)", "float rounding in norm/scale is not modelled"],
         "technique": "Lean 4 proof over ℝ (clipped contribution ≤ C, locality of contributions, sensitivity under removal of a unit) + Float instance of the same definitions compared with the real clipping relation executed on SQLite + neighbouring-database execution oracle",
-        "level_text": "Theorems (Props/C01.lean), for any number of groups, units and rows per unit: the clipped vector of a unit has L2 norm ≤ C; the released vector is the sum of the units' clipped vectors (a unit's contribution depends only on its own rows); removing one unit changes the released vector by ≤ C in L2 norm. The same definitions on Float reproduce the real l2_clipped_sums relation executed on SQLite; the real DP rewriting is executed on neighbouring databases and the observed L2 change of every noised column is compared with the C its σ was scaled by.",
+        "level_text": "Theorem C01Agg.dp_sensitivity (Props/C01Agg.lean), on the model of the whole aggregation pipeline that the dpagg stream compares with the real rewriting (clipping constants included: multiplicity, A·multiplicity, ≥ A²·multiplicity): for any table (any number of rows per unit, NULLs, any group layout, values of any size) deleting all rows of one privacy unit moves the vector of clipped sums of each derived column by at most its clipping constant in Euclidean norm. Theorems (Props/C01.lean), for any number of groups, units and rows per unit: the clipped vector of a unit has L2 norm ≤ C; the released vector is the sum of the units' clipped vectors (a unit's contribution depends only on its own rows); removing one unit changes the released vector by ≤ C in L2 norm. The same definitions on Float reproduce the real l2_clipped_sums relation executed on SQLite; the real DP rewriting is executed on neighbouring databases and the observed L2 change of every noised column is compared with the C its σ was scaled by.",
         "level_note": "Trusted: Lean kernel, Mathlib; SQLite; harness shims and IR extraction. Modelled, not verified: the SQL engine's evaluation of the rendered pipeline, NULL-unit rows, float rounding.",
     },
     "C08": {
